@@ -46,13 +46,13 @@ DOWN_POINTS = ['open', 'truncate', 'read0', 'read1', 'write1', 'after_copy']
 
 
 class Faults:
-    def __init__(self, point, count):
-        self.point, self.left, self.attempts = point, count, 0
+    def __init__(self, point, count, exc=OSError):
+        self.point, self.left, self.attempts, self.exc = point, count, 0, exc
 
     def hit(self, p):
         if p == self.point and self.left > 0:
             self.left -= 1
-            raise OSError(f'injected fault at {p}')
+            raise self.exc(5, f'injected fault at {p}')
 
 
 def _patched(fl: Faults):
@@ -122,7 +122,10 @@ class CountingStream(io.BytesIO):
         return super().seek(pos, whence)
 
 
-def local_fault_case(op, point_i, count, size_i, wrapped):
+EXCS = [OSError, FileNotFoundError, PermissionError]       # a concurrent clean() can make ENOENT transient on write paths
+
+
+def local_fault_case(op, point_i, count, size_i, wrapped, exc_i=0):
     size = [0, 1, CHUNK, 3 * CHUNK + 2][size_i]
     data = bytes((i * 13 + 5) % 251 for i in range(size))
     name = 'data/ab/cd-ef'
@@ -134,7 +137,8 @@ def local_fault_case(op, point_i, count, size_i, wrapped):
             (root / 'data/ab').mkdir(parents=True)
             (root / name).write_bytes(data if op.startswith('down') else old)
         points = DOWN_POINTS if op.startswith('down') else UP_POINTS
-        fl = Faults(points[point_i % len(points)], count)
+        exc = EXCS[exc_i] if not op.startswith('down') else OSError      # (a missing file is a legitimate permanent error for downloads)
+        fl = Faults(points[point_i % len(points)], count, exc)
         LB.Path, LB.shutil, LB.NamedTemporaryFile = _patched(fl)
         _NoSleepTime.slept.clear()
         try:
@@ -207,7 +211,7 @@ def e_local_faults(k: int) -> bool:
     """
     opi, point_i, count, size_i, wrapped = digits(k, [5, 7, 7, 4, 2])
     with NoTracing():
-        ok, msg = local_fault_case(OPS[opi], point_i, count, size_i, bool(wrapped))
+        ok, msg = local_fault_case(OPS[opi], point_i, count, size_i, bool(wrapped), exc_i=(point_i + count + size_i) % 3)
         tick('e_local_faults', [OPS[opi], point_i, count, size_i, wrapped])
         if not ok:
             _say(OPS[opi], point_i, count, size_i, wrapped, msg)
